@@ -40,6 +40,7 @@ type recorder struct {
 	epOfGo   map[uint64]int    // goroutine -> lifecycle it runs
 	ptrOfEp  map[int]uintptr
 	nextSess int
+	nextEp   int
 	pendKick string
 	parks    map[string]chan struct{}
 	jitter   *hx.Rand
@@ -75,7 +76,10 @@ func (r *recorder) hook(ev sniproxy.VerifEvent) {
 	case "server.kick":
 		r.pendKick = fmt.Sprint(r.epOfPtr[ev.Ptr])
 	case "server.map":
-		id := len(r.epOfPtr)
+		// ids count the map events; an address can be reused by a later endpoint client once
+		// the earlier one is garbage, so the pointer maps to the latest lifecycle that used it
+		id := r.nextEp
+		r.nextEp++
 		r.epOfPtr[ev.Ptr] = id
 		r.ptrOfEp[id] = ev.Ptr
 		r.epOfGo[goid()] = id
